@@ -62,5 +62,16 @@ theorem writer_chain_from_source :
     writerChain = [(some (true, true), faceVertsUvsNormals), (some (true, false), faceVertsNormals),
       (some (false, true), faceVertsUvs), (none, faceVerts)] := rfl
 
+/-- **The lexer's keyword table, from the source**: the first fields the driver's lexer acts on (`ObjText.lexKeywords`;
+    every other line is `.other`, ignored) are exactly the case labels of `switch components[0]` in `ReadMesh`, which has
+    no default clause (the extractor fails on one). -/
+theorem lexKeywords_from_source : ∀ k : String, k ∈ lexKeywords ↔ k ∈ readerKeywords := by
+  intro k
+  simp only [lexKeywords, readerKeywords, List.mem_cons, List.not_mem_nil, or_false]
+  constructor <;> (intro h; rcases h with h | h | h | h | h | h | h <;> simp [h])
+
+theorem lexKeywords_count_from_source : lexKeywords.length = readerKeywords.length ∧ lexKeywords.Nodup := by
+  refine ⟨rfl, by decide⟩
+
 end C05
 end PolyVerif
